@@ -236,7 +236,7 @@ def replay(params, model, notes, workdir, seed):
         land = os.path.normpath(os.path.join(jail, "dest", name_r, *(p0 if not single else [])))
         if land.startswith(workdir + os.sep) and not os.path.exists(land):
             try:
-                refconc.write_file(land, b"victim")
+                refconc.write_file(land, b"vic")          # three bytes, as in the model
             except OSError:
                 pass
     before = refconc.snapshot(workdir)
